@@ -265,24 +265,71 @@ fn k01_frame_hidden() {
 }
 
 // ---------------------------------------------------------------- C02 layer 1
-/// Arbitrary bytes at an arbitrary position: the node decoder never panics or
-/// overflows, and any child reference it returns points strictly backwards.
-/// `first`: the first (up to) 3 bits select the branch so that every harness
-/// stays small: 0 = combinators with two children, 1 = one child, 2 = leaves /
-/// disconnect1, 3 = witness / hidden, 4 = jets and words (word length read but
-/// harness stops before the word body for n > 1).
-fn decoder_total(code: u8) {
-    let mut data: [u8; 6] = kani::any();
-    // fix the leading bits: code 0..3 -> 0b0xx, code 4 -> 0b11 (jet), code 5 -> 0b10 (word)
-    match code {
-        0..=3 => data[0] = (data[0] & 0x1f) | (code << 5),
-        4 => data[0] = (data[0] & 0x3f) | 0xc0,
-        _ => data[0] = (data[0] & 0x3f) | 0x80,
+/// An `EarlyEndOfStreamError` (non-exhaustive: only the library can make one).
+fn eos() -> simplicity::EarlyEndOfStreamError {
+    let e: [u8; 0] = [];
+    BitIter::from(&e[..]).read_bit().unwrap_err()
+}
+
+/// Contract of `BitIter::read_natural(bound)` used in place of its body
+/// (assume-guarantee): `Ok(n)` implies `n >= 1` and, with a bound, `n <= bound`;
+/// any error may be returned. The body itself is verified against exactly this
+/// contract (and more) on arbitrary strings by C13's `k13_6_canon_k*` harnesses.
+pub fn contract_read_natural<N, I: Iterator<Item = u8>>(
+    _this: &mut BitIter<I>,
+    bound: Option<N>,
+) -> Result<N, simplicity::DecodeNaturalError>
+where
+    N: TryFrom<u32> + PartialOrd,
+    u32: TryFrom<N>,
+    usize: TryFrom<N>,
+{
+    let fail: u8 = kani::any();
+    match fail {
+        0 => {
+            let n: u32 = kani::any();
+            kani::assume(n >= 1);
+            match N::try_from(n) {
+                Ok(ret) => {
+                    if let Some(b) = bound {
+                        kani::assume(!(ret > b));
+                    }
+                    Ok(ret)
+                }
+                Err(_) => Err(simplicity::DecodeNaturalError::Overflow),
+            }
+        }
+        1 => Err(simplicity::DecodeNaturalError::Overflow),
+        2 => Err(simplicity::DecodeNaturalError::EndOfStream(eos())),
+        _ => Err(simplicity::DecodeNaturalError::BadIndex { got: kani::any(), max: kani::any() }),
     }
+}
+
+/// Model of `Word::from_bits` (the value decoder behind it is outside what
+/// CBMC can execute, DESIGN.md 1.4): either the stream ends or a word comes back.
+pub fn model_word_from_bits<I: Iterator<Item = u8>>(
+    _bits: &mut BitIter<I>,
+    n: u32,
+) -> Result<simplicity::Word, simplicity::EarlyEndOfStreamError> {
+    assert!(n <= 31, "Word::from_bits called with n > 31 (it panics there)");
+    if kani::any() {
+        Err(eos())
+    } else {
+        Ok(simplicity::Word::u8(kani::any()))
+    }
+}
+
+/// Arbitrary bytes (with the leading `nbits` code bits fixed to `code`, one
+/// harness per node class, so that the other classes' paths are infeasible) at
+/// an arbitrary position: the node decoder never panics or overflows, and any
+/// child reference it returns points strictly backwards.
+fn class_total<const NB: usize>(code: u8, nbits: usize) {
+    let mut data: [u8; NB] = kani::any();
+    let keep = 0xffu8 >> nbits;
+    data[0] = (code << (8 - nbits)) | (data[0] & keep);
     let len: usize = kani::any();
-    kani::assume(len <= 6);
+    kani::assume(len >= 1 && len <= NB);
     let index: usize = kani::any();
-    kani::assume(index <= 65535);
     let mut it = BitIter::from(&data[..len]);
     let r = decode_node::<_, TinyJet>(&mut it, index);
     assert!(it.n_total_read() <= 8 * len);
@@ -308,20 +355,27 @@ fn decoder_total(code: u8) {
 }
 
 macro_rules! total {
-    ($name:ident, $code:expr) => {
+    ($name:ident, $nb:expr, $code:expr, $nbits:expr) => {
         #[kani::proof]
         #[kani::unwind(5)]
         #[kani::stub(std::sync::Arc::drop_slow, crate::hcons::stub_arc_drop_slow)]
         #[kani::stub(simplicity::types::precomputed::nth_power_of_2, crate::vals::stub_nth_power_of_2)]
         #[kani::stub(simplicity::Tmr::sum, crate::hcons::stub_tmr_sum)]
         #[kani::stub(simplicity::Tmr::product, crate::hcons::stub_tmr_product)]
+        #[kani::stub(simplicity::Word::from_bits, model_word_from_bits)]
         fn $name() {
-            decoder_total($code)
+            class_total::<$nb>($code, $nbits)
         }
     };
 }
-total!(k02_total_binary, 0);
-total!(k02_total_unary, 1);
-total!(k02_total_leaf, 2);
-total!(k02_total_witness_hidden, 3);
-total!(k02_total_jet, 4);
+// classes without a back reference (quick)
+total!(k02_total_iden_unit, 2, 0b0100, 4); // 0100x: iden / unit
+total!(k02_total_fail, 66, 0b01010, 5); // 64 entropy bytes
+total!(k02_total_witness, 2, 0b0111, 4);
+total!(k02_total_hidden, 34, 0b0110, 4); // 32 CMR bytes
+total!(k02_total_jet, 2, 0b11, 2);
+// classes with back references: the real read_natural on arbitrary bits (thorough)
+total!(k02_total_unary, 6, 0b001, 3); // injl injr take drop
+total!(k02_total_disconnect1, 6, 0b01011, 5);
+total!(k02_total_binary, 10, 0b000, 3); // comp case pair disconnect
+total!(k02_total_word, 6, 0b10, 2); // word: natural <= 32, then the (modelled) word body
